@@ -197,6 +197,9 @@ class Interp:
                     if name in fs: f = fs[name]; break
             if f is None: raise Unsupported(f"promoted const {name}")
             return self.call_mir(ctx, f, [])
+        m2 = re.match(r"^(?:core|std)::(?:num::<impl )?(u8|u16|u32|u64|u128|usize)>?::(MAX|MIN|BITS)$", s)
+        if m2:
+            return {"MAX": INTMAX[m2.group(1)] - 1, "MIN": 0, "BITS": INTMAX[m2.group(1)].bit_length() - 1}[m2.group(2)]
         h = self.models.lookup_const(name)
         if h is not None: return h(self, ctx, name)
         f = self.prog.resolve(name, cur)
